@@ -505,15 +505,17 @@ def loadTrack (hdr : Bytes → Out Bytes) (file : Bytes) (s : Span) : Out Bytes 
 
 /-! ### D11 `ensure_non_overlapping_frames` -/
 
-def framesLoop (fileLen : Nat) : List FrameV → Nat → Out Unit
-  | [], _ => .ok ()
-  | f :: fs, prevEnd =>
+/-- the loop over the sorted frames; `prevEnd`, `prevOff` = end and offset of the previous frame.  A frame
+    whose byte range is identical to the previous one (payload-less update reusing a payload) is not an overlap. -/
+def framesLoop (fileLen : Nat) : List FrameV → Nat → Nat → Out Unit
+  | [], _, _ => .ok ()
+  | f :: fs, prevEnd, prevOff =>
     match checkedAdd f.off f.len with
     | none => .err "overflow"
     | some e =>
       if e > fileLen then .err "exceeds"
-      else if f.off < prevEnd then .err "overlap"
-      else framesLoop fileLen fs e
+      else if f.off < prevEnd ∧ ¬ (f.off = prevOff ∧ e = prevEnd) then .err "overlap"
+      else framesLoop fileLen fs e f.off
 
 /-- `sort_by_key(|f| f.payload_offset)` (stable) as an insertion sort: an element goes in front of
     the first one whose key is not smaller -/
@@ -526,7 +528,7 @@ def sortFrames : List FrameV → List FrameV
   | f :: fs => insertFrame f (sortFrames fs)
 
 def ensureNonOverlapping (frames : List FrameV) (fileLen : Nat) : Out Unit :=
-  framesLoop fileLen (sortFrames (frames.filter fun f => f.active && decide (f.len > 0))) 0
+  framesLoop fileLen (sortFrames (frames.filter fun f => f.active && decide (f.len > 0))) 0 0
 
 /-! ### D12 `compute_data_end` / `compute_payload_region_end` -/
 
